@@ -607,7 +607,31 @@ func C14(g *ref.Grammar, mkA, mkB func() Parser, hasActions bool, n1, n2, order,
 	sameSnap("instanceA", gotA, wantA)
 	sameSnap("instanceB", gotB, wantB)
 	rt.Assert("footprints-disjoint", rt.FootprintsDisjoint(1, 2))
+	if !rt.Symbolic() {
+		// native replay: really run the two instances concurrently (the replay binary is built
+		// with the race detector, whose report confirms a footprint conflict)
+		concurrently(mkA, mkB, inA, inB, hasActions)
+	}
 	rt.Reach("done")
+}
+
+func concurrently(mkA, mkB func() Parser, inA, inB *Input, hasActions bool) {
+	for round := 0; round < 20; round++ {
+		done := make(chan bool, 2)
+		for i := 0; i < 2; i++ {
+			mk, in := mkA, inA
+			if i == 1 {
+				mk, in = mkB, inB
+			}
+			go func() {
+				s := snap(start(mk, in, true, -1), hasActions)
+				_ = s
+				done <- true
+			}()
+		}
+		<-done
+		<-done
+	}
 }
 
 func observeInto(p Parser, s *snapshot, hasActions bool) {
